@@ -48,6 +48,9 @@ CHECKS = {
  "C14": ("exploration", "child-process liveness with a crash journal, two witness clients exchanging numbered QoS 0/1/2 traffic and PINGs after every group of hostile streams, Closed() and Setup/Terminate pairing for every hostile connection, VerifSnapshot bookkeeping, goroutine census at final quiescence",
          "24 (quick) / 500 (thorough) brokers x 36 hostile streams of 9 kinds run 6 at a time with backend-boundary perturbation; MemoryBackend.Close at every backend hook-call index 1..40 of two concurrent sessions; every backend hook failing at its 1st-4th call before/after; takeover hitting KillTimeout",
          "hostile peers keep reading and never use a witness's client id; process death is turned into a violation by the driver from the journal", "2-C14"),
+ "C15": ("exploration", "sequence numbers in payloads with an offline order checker per (publisher, publish QoS, delivered QoS, subscriber); retransmission order compared with the sender-side send log of the previous connection (broker and client library); first-arrival order over cut-and-resume cycles; callback order and service command order against a scripted broker",
+         "60/1500 end-to-end runs (1-8 pipelining publishers, 1-4 subscribers, windows 1-10, perturbation), 150/4000 broker resend runs, 200/5000 backlog cut-and-resume runs, 150/3000 client resend runs, 100/2000 client inbound runs, 80/1500 service command runs (quick/thorough)",
+         "schedules are those produced by the Go scheduler with perturbation at the backend boundary; duplicates (DUP) are ignored for first-arrival order", "2-C15"),
 }
 NOT_APPLICABLE = {}
 def main():
